@@ -139,11 +139,18 @@ pub fn scenario(r: &mut Report, p: &Params) {
     // let in-flight maintenance settle
     w.run_for(5 * SEC);
     // (b) the first node learnt every server that bootstrapped through it
+    // adaptive-mode nodes on a reachable address turn into servers after their first refresh:
+    // ask every node what it is now
+    for (i, n) in nodes.iter().enumerate() {
+        if let Some(info) = w.block_on(n.adht.info(), 5 * SEC) {
+            is_server[i] = info.server_mode();
+        }
+    }
     let servers: Vec<SocketAddrV4> = nodes.iter().zip(&is_server).filter(|(_, s)| **s).map(|(n, _)| n.addr).collect();
     // (bucket capacity - 20 per distance - cannot bind with at most 20 other servers)
-    if p.servers >= 2 && p.servers <= 21 {
+    if p.servers >= 2 && servers.len() <= 21 {
         let known0: HashSet<String> = w.block_on(nodes[0].adht.to_bootstrap(), 5 * SEC).unwrap_or_default().into_iter().collect();
-        let missing: Vec<String> = servers.iter().skip(1).map(|a| a.to_string()).filter(|a| !known0.contains(a)).collect();
+        let missing: Vec<String> = nodes.iter().take(p.servers).skip(1).map(|n| n.addr.to_string()).filter(|a| !known0.contains(a)).collect();
         if !missing.is_empty() {
             r.violation("first-node/did-not-learn-joiner", "the first node (no bootstrap list) does not know a server that bootstrapped from it", case.clone(), json!({"missing": missing, "known": known0.len()}));
         }
@@ -162,7 +169,7 @@ pub fn scenario(r: &mut Report, p: &Params) {
     }
     r.count("graphs_checked");
     // (d) up to 20 servers: a lookup from any node sends a request to every other server
-    if p.servers <= 20 {
+    if servers.len() <= 20 {
         let k = nodes.len().min(4);
         for _ in 0..k {
             let oi = rng.usize(nodes.len());
@@ -182,7 +189,33 @@ pub fn scenario(r: &mut Report, p: &Params) {
             let (sends, _) = sends_and_delivers(&trace);
             let asked: HashSet<SocketAddrV4> = sends.iter().filter(|m| m.from == origin.addr && m.k.is_query("get") && m.k.target() == Some(target)).map(|m| m.to).collect();
             let missed: Vec<String> = servers.iter().filter(|s| **s != origin.addr && !asked.contains(s)).map(|s| s.to_string()).collect();
-            if !missed.is_empty() {
+            if !missed.is_empty() && std::env::var("MLV_DEBUG").is_ok() {
+                eprintln!("origin {} asked {:?}", origin.addr, asked);
+                for m in sends.iter().filter(|m| m.to == origin.addr && m.k.y == b'r') {
+                    eprintln!("  answer from {} lists {:?}", m.from, m.k.nodes().iter().map(|n| n.1.to_string()).collect::<Vec<_>>());
+                }
+                if let Some(s) = snapshot(&w, origin) {
+                    eprintln!("  origin table {:?}", s.table.nodes.iter().map(|n| n.1.to_string()).collect::<Vec<_>>());
+                }
+                if let Some(s) = snapshot(&w, &nodes[0]) {
+                    eprintln!("  node0 table {:?}", s.table.nodes.iter().map(|n| (n.1.to_string(), crate::bencode::hex(&n.0.as_bytes()[..3]))).collect::<Vec<_>>());
+                }
+            }
+            // cause analysis: entries for one address under two ids (a peer re-keyed to a BEP42 id after
+            // confirming its address; stale ids still circulate) occupy several of the 20 candidate slots
+            let mut ids_per_addr: HashMap<SocketAddrV4, HashSet<[u8; 20]>> = HashMap::new();
+            for m in sends.iter().filter(|m| m.to == origin.addr && m.k.y == b'r') {
+                for (id, addr) in m.k.nodes() {
+                    ids_per_addr.entry(addr).or_default().insert(id);
+                }
+                if let Some(id) = m.k.id() {
+                    ids_per_addr.entry(m.from).or_default().insert(id);
+                }
+            }
+            let stale_dups = ids_per_addr.values().filter(|v| v.len() > 1).count();
+            if !missed.is_empty() && stale_dups > 0 {
+                r.violation("lookup/server-not-queried/stale-id-duplicates", "with at most 20 servers a lookup did not query every server: candidates listed one address under two ids (stale pre-re-key id), filling the 20 slots", case.clone(), json!({"origin": origin.addr.to_string(), "missed": missed, "asked": asked.len(), "addresses_with_two_ids": stale_dups}));
+            } else if !missed.is_empty() {
                 r.violation("lookup/server-not-queried", "with at most 20 servers a lookup did not query every server", case.clone(), json!({"origin": origin.addr.to_string(), "origin_index": oi, "missed": missed, "asked": asked.len()}));
             }
             r.count("every_server_lookups");
@@ -276,13 +309,14 @@ pub fn run(a: &Args) -> Report {
     let mut rng = Rng::new(mix(a.seed, 0xc13 + a.shard));
     for i in 0..n {
         if i % 5 == 4 {
-            dead_and_late(&mut r, rng.u64(), (i / 5 % 2) as usize);
+            let (s, m) = (rng.u64(), (i / 5 % 2) as usize);
+            super::guarded(&mut r, json!({"class":"dead-or-late","seed":s.to_string(),"mode":m}), |r| dead_and_late(r, s, m));
             r.count("dead_or_late_scenarios");
             continue;
         }
         let servers = *rng.pick(&[1usize, 2, 3, 4, 5, 7, 10, 14, 19, 20, 20]);
         let p = Params { seed: rng.u64(), servers, clients: *rng.pick(&[0usize, 0, 1, 3, 6]), plan: rng.usize(4), order: rng.usize(4), boots: rng.usize(3) };
-        scenario(&mut r, &p);
+        super::guarded(&mut r, case_json(&p), |r| scenario(r, &p));
         r.count("join_scenarios");
     }
     // larger networks: connectivity verdict only
